@@ -117,6 +117,13 @@ func runCheck(propID, repo, verif, tier string, verbose bool) int {
 		return 2
 	}
 	loadS := time.Since(t0).Seconds()
+	if tier != "thorough" {
+		for _, fc := range p.Contracts {
+			if fc.TrustedQuick != "" && fc.Trusted == "" {
+				fc.Trusted = fc.TrustedQuick
+			}
+		}
+	}
 	var units []*Unit
 	for _, k := range prop.Functions {
 		mode := "nosafety"
@@ -210,6 +217,9 @@ func runCheck(propID, repo, verif, tier string, verbose bool) int {
 	work := filepath.Join(verif, "work", propID)
 	os.RemoveAll(work)
 	opts := solveOpts{WorkDir: work, TimeoutS: 10, Retry: true, All: tier == "thorough"}
+	if tier == "thorough" {
+		opts.TimeoutS = 20
+	}
 	if tier == "thorough" {
 		opts.TimeoutS = 30
 	}
